@@ -7,6 +7,8 @@
 -/
 import Proofs.Protocol
 import Proofs.SeqInv
+import Proofs.ConflictSeq
+import Properties.C02
 namespace Pulser
 namespace C10
 
@@ -138,6 +140,53 @@ theorem retarget_after_fall {ms : Option Nat} {c c1 : ChanState} {l1 : Slot} (hc
     rw [hl] at hl1; injection hl1 with hl1; subst hl1
     omega
 
+theorem RT_suffix (cfg : ChanCfg) (a b : List Slot) (h : RT cfg (a ++ b)) : RT cfg b := by
+  induction a with
+  | nil => exact h
+  | cons x rest ih => exact ih h.2
+
+theorem LPC_suffix (a b : List Slot) (h : LPC (a ++ b)) : LPC b := by
+  induction a with
+  | nil => exact h
+  | cons x rest ih => exact ih h.2
+
+/-- **The retarget rule holds in every reachable state**, whatever the history (failing calls
+and oracle answers included): every target instruction `t` of a channel other than its initial
+one — `pre` are the instructions before it — lasts at least `fixed_retarget_t`, and its end is
+at least `min_retarget_interval` after the end of the target instruction before it. -/
+theorem retarget_rule (dev : Device) (nQ : Nat) (hd : DevOk dev) (s : SeqState)
+    (hr : C02.Reach dev nQ s) {c : ChanState} (hc : c ∈ s.chans) (pre post : List Slot) (t : Slot)
+    (hs : c.slots = pre ++ t :: post) (ht : t.isTarget = true) (hpre : pre ≠ []) :
+    (c.cfg.fixedRetarget : Int) ≤ t.tf - t.ti ∧
+    (c.cfg.minRetarget : Int) ≤ t.tf - lastTargetOf pre.reverse := by
+  obtain ⟨evs, rfl⟩ := hr
+  have h0 : SeqInv (SeqState.init dev nQ) := by intro c hc; simp [SeqState.init] at hc
+  have hr0 : RTAll (SeqState.init dev nQ) := by intro c hc; simp [SeqState.init] at hc
+  have hrt := runEv_RT (s := SeqState.init dev nQ) hd h0 hr0 evs c hc
+  unfold RTc at hrt
+  rw [hs, List.reverse_append, List.reverse_cons, List.append_assoc] at hrt
+  have := RT_suffix _ _ _ hrt
+  exact this.1 (by simpa using hpre) ht
+
+/-- **Every retarget begins only after the previous pulse has fully ramped down — in every
+reachable state**: for a target instruction `t` and the most recent pulse `q` before it,
+`q.tf + fall_time(q) ≤ t.ti` (standard-mode fall time: retargets happen outside EOM mode),
+given hypothesis A1 on the oracle fall times (`FallsOk`: `fallStd ≤ 2·rise_time`). -/
+theorem retarget_waits_for_fall (dev : Device) (nQ : Nat) (hd : DevOk dev) (s : SeqState)
+    (hr : C02.Reach dev nQ s) (hf : FallsOk s) {c : ChanState} (hc : c ∈ s.chans)
+    (pre post : List Slot) (t q : Slot) (pq : PulseRec)
+    (hs : c.slots = pre ++ t :: post) (ht : t.isTarget = true)
+    (hq : firstPulse pre.reverse = some (q, pq)) :
+    q.tf + (pq.fallStd : Nat) ≤ t.ti := by
+  obtain ⟨evs, rfl⟩ := hr
+  have h0 : SeqInv (SeqState.init dev nQ) := by intro c hc; simp [SeqState.init] at hc
+  have hl0 : LPCAll (SeqState.init dev nQ) := by intro c hc; simp [SeqState.init] at hc
+  have hl := runEv_LPC (s := SeqState.init dev nQ) hd h0 hl0 evs hf c hc
+  unfold LPCc at hl
+  rw [hs, List.reverse_append, List.reverse_cons, List.append_assoc] at hl
+  have := LPC_suffix _ _ hl
+  exact this.1 ht q pq hq
+
 /-! ### Non-vacuity -/
 
 def cfgL : ChanCfg :=
@@ -155,6 +204,16 @@ def exS : SeqState :=
 
 example : (exS.chans.map (·.slots.map fun s => (s.ti, s.tf))) =
     [[(-1, 0), (0, 100), (100, 300), (300, 400), (400, 540), (540, 592)]] := by decide +kernel
+
+/-- `retarget_rule` and `retarget_waits_for_fall` apply to the retarget at (300, 400): it lasts
+100 ≥ fixed_retarget_t = 100, ends 400 ≥ 220 after the initial target's end (0), and starts at
+300 = 100 + 200, the end of the pulse plus its fall time. -/
+example : C02.Reach exDev 3 exS ∧
+    (exS.chans.head?.map fun c => (c.slots.drop 3).head?.map fun t => (t.isTarget, t.ti, t.tf)) =
+      some (some (true, 300, 400)) ∧
+    (exS.chans.head?.map fun c => (firstPulse (c.slots.take 3).reverse).map fun x => (x.1.tf, x.2.fallStd)) =
+      some (some (100, 200)) :=
+  ⟨C02.Reach.of_run exDev 3 _, by decide +kernel, by decide +kernel⟩
 
 end C10
 end Pulser
